@@ -85,7 +85,7 @@ def finalize(results, counters, tier, seed):
     for k in ("registered", "files_consumed", "consume_pairs", "filters", "intersectors", "fed"):
         if mon.get(k, 0) == 0:
             inc.append("monitor never saw: " + k)
-    miss = [s for s in ("m-merger-dynamic", "m-lf-same-rank-different-leaders", "m-multi-rank-intersector", "m-eager", "m-sequencer", "m-leader-follower", "m-two-finger",
+    miss = [s for s in ("m-partitioned", "m-part-occ-two-level", "m-merger-dynamic", "m-lf-same-rank-different-leaders", "m-multi-rank-intersector", "m-eager", "m-sequencer", "m-leader-follower", "m-two-finger",
                         "m-skip-ahead", "m-three-level", "accel-gamma", "accel-extensor-energy")
             if counters.get("strata_ok", {}).get(s, 0) == 0]
     if miss:
